@@ -344,26 +344,32 @@ Fixpoint resolve (m : ffmap) (res : id) (atoms : list id) : option Z :=
 
 Definition within (q target tol : Z) : bool := Z.abs (q - target) <=? tol.
 
-Definition alt_ok (m : ffmap) (ff : id) (formal : Z) (alt : list id) : bool :=
+(* tol = TOL is the code's own tolerance (config.CHARGE_ERROR); tol = 0 demands the exact sum *)
+Definition alt_ok (tol : Z) (m : ffmap) (ff : id) (formal : Z) (alt : list id) : bool :=
   match resolve m ff alt with
   | None => true
-  | Some q => within q (formal * SCALE) TOL
+  | Some q => within q (formal * SCALE) tol
   end.
 
 Definition mem_nat (k : nat) (l : list nat) : bool := existsb (Nat.eqb k) l.
 
-Definition arow_ok (m : ffmap) (exc : list nat) (r : arow) : bool :=
-  mem_nat (ar_key r) exc || forallb (alt_ok m (ar_ff r) (ar_formal r)) (ar_alts r).
+Definition arow_ok (tol : Z) (m : ffmap) (exc : list nat) (r : arow) : bool :=
+  mem_nat (ar_key r) exc || forallb (alt_ok tol m (ar_ff r) (ar_formal r)) (ar_alts r).
 
 Definition keys_distinct (rows : list arow) : bool :=
   (fix go (l : list nat) := match l with [] => true | k :: r => negb (mem_nat k r) && go r end) (map ar_key rows).
 
 (* every excluded row really fails (the exception list hides nothing else) *)
-Definition exc_tight (m : ffmap) (exc : list nat) (rows : list arow) : bool :=
-  forallb (fun k => existsb (fun r => Nat.eqb (ar_key r) k && negb (arow_ok m [] r)) rows) exc.
+Definition exc_tight (tol : Z) (m : ffmap) (exc : list nat) (rows : list arow) : bool :=
+  forallb (fun k => existsb (fun r => Nat.eqb (ar_key r) k && negb (arow_ok tol m [] r)) rows) exc.
 
-Definition check_arows (m : ffmap) (exc : list nat) (rows : list arow) : bool :=
-  forallb (arow_ok m exc) rows && keys_distinct rows && exc_tight m exc rows.
+Definition check_arows (tol : Z) (m : ffmap) (exc : list nat) (rows : list arow) : bool :=
+  forallb (arow_ok tol m exc) rows && keys_distinct rows && exc_tight tol m exc rows.
+
+(* a row is excluded only if its (real) name is one of [names], and every listed name is used *)
+Definition check_exception_names (exc : list nat) (names : list sname) (rows : list arow) : bool :=
+  forallb (fun r => negb (mem_nat (ar_key r) exc) || existsb (sname_eqb (ar_name r)) names) rows
+  && forallb (fun n => existsb (fun r => mem_nat (ar_key r) exc && sname_eqb (ar_name r) n) rows) names.
 
 Definition is_some {A} (o : option A) : bool := match o with Some _ => true | None => false end.
 
@@ -388,17 +394,21 @@ Definition is_three (r : nrow) : bool := nr_three r && negb (nr_five r).
 
 (* per force field table facts behind the strand theorem: an internal
    nucleotide carries -1, and ANY 5' end plus ANY 3' end carry -1 together *)
-Definition check_strand (m : ffmap) (rows : list nrow) : bool :=
-  forallb (fun r => if is_internal r then forallb (fun q => within q (- SCALE) TOL) (nrow_charges m r) else true) rows
+(* mixed = false: only 5'/3' pairs of the same sugar type (both DNA or both RNA) are paired *)
+Definition pairable (mixed : bool) (r5 r3 : nrow) : bool :=
+  mixed || Bool.eqb (is_ribo (nr_base r5)) (is_ribo (nr_base r3)).
+
+Definition check_strand (tol : Z) (mixed : bool) (m : ffmap) (rows : list nrow) : bool :=
+  forallb (fun r => if is_internal r then forallb (fun q => within q (- SCALE) tol) (nrow_charges m r) else true) rows
   && forallb (fun r5 => if is_five r5 then
-        forallb (fun r3 => if is_three r3 then
-           forallb (fun q5 => forallb (fun q3 => within (q5 + q3) (- SCALE) TOL) (nrow_charges m r3)) (nrow_charges m r5)
+        forallb (fun r3 => if is_three r3 && pairable mixed r5 r3 then
+           forallb (fun q5 => forallb (fun q3 => within (q5 + q3) (- SCALE) tol) (nrow_charges m r3)) (nrow_charges m r5)
          else true) rows
       else true) rows
   && forallb (fun r => Bool.eqb (nr_phos r) (negb (nr_five r))) rows.
 
-Definition check_water (m : ffmap) (wat : id) (atoms : list id) : bool :=
-  match resolve m wat atoms with Some q => within q 0 TOL | None => false end.
+Definition check_water (tol : Z) (m : ffmap) (wat : id) (atoms : list id) : bool :=
+  match resolve m wat atoms with Some q => within q 0 tol | None => false end.
 
 (* ---------------------------------------------------------------------- *)
 (* totals and the integrality guard (main.py:706-717, utilities.noninteger_charge) *)
